@@ -247,6 +247,28 @@ def toValues (offset : Int) (mask : Nat) : List EnumMember → Except EnumErr (L
       | .error err => .error err
       | .ok out => .ok (if (mask &&& b) != 0 then m :: out else out)
 
+/-- `str(member)` (`IntEnum.__str__`): the name, or `(Unrecognized)` for a hidden member. -/
+def EnumMember.str (m : EnumMember) : Name :=
+  if m.isUnrecognized then [40, 85, 110, 114, 101, 99, 111, 103, 110, 105, 122, 101, 100, 41] else m.name
+
+/-- `', '.join(parts)`. -/
+def joinCommaSpace : List Name → Name
+  | [] => []
+  | [x] => x
+  | x :: y :: rest => x ++ 44 :: 32 :: joinCommaSpace (y :: rest)
+
+/-- `WrappedCls.to_string(mask)`: `', '.join(str(s) for s in cls.to_values(mask))`. -/
+def maskToString (offset : Int) (mask : Nat) (vals : List EnumMember) : Except EnumErr Name :=
+  match toValues offset mask vals with
+  | .ok ms => .ok (joinCommaSpace (ms.map (·.str)))
+  | .error err => .error err
+
+/-! The three helpers are functions of the class constants (`_enum_offset`, `_enum_values`, the attributes) and of
+their own argument only: there is no state for a caller to disturb.  In Python terms every call builds a new result
+object; whatever a caller does to a list it got back (append, remove, clear, sort ...) is invisible to every later
+call.  The harness checks exactly this: each call of a script in which earlier results are edited between calls
+must give the value of the function below for its own argument. -/
+
 /-! ### per-enum facts decided on the generated tables -/
 
 def namesDistinct : List Name → Bool
